@@ -318,6 +318,16 @@ def split_first_line(text, style, context, max_width, justification_spacing,
         return first_line_metrics(
             first_line, text, layout, resume_index, space_collapse, style)
 
+    # Pango lets trailing spaces hang when it checks that the text fits, but
+    # they are included in the line width.
+    only_spaces_overflow = False
+    if resume_index is None and text.endswith(' '):
+        stripped_layout = create_layout(
+            text.rstrip(' '), style, context, None, justification_spacing)
+        stripped_line, _ = stripped_layout.get_first_line()
+        stripped_line_width, _ = line_size(stripped_line, style)
+        only_spaces_overflow = stripped_line_width <= max_width
+
     # Step #3: Try to put the first word of the second line on the first line
     # https://mail.gnome.org/archives/gtk-i18n-list/2013-September/msg00006
     # is a good thread related to this problem.
@@ -374,6 +384,9 @@ def split_first_line(text, style, context, max_width, justification_spacing,
     soft_hyphen = '\xad'
 
     auto_hyphenation = manual_hyphenation = False
+    if only_spaces_overflow:
+        # The whole text fits, no need to hyphenate.
+        hyphens = 'none'
     if hyphens != 'none':
         manual_hyphenation = soft_hyphen in first_line_text + second_line_text
     if hyphens == 'auto' and lang:
